@@ -618,6 +618,8 @@ func candidates(w *wiring, facts []string, r *rng, universe []string) []corrupti
 			}
 		}
 	}
+	// keys / ids in prefix relation with a legitimate neighbour (store_c09_w5.go)
+	c09NearCandidates(w, v, r, add)
 	return out
 }
 
@@ -1179,11 +1181,16 @@ func runC09(o *opts) error {
 	if o.get("only-corpus", "") != "" {
 		n, nStates = 0, 0
 	}
-	mkHistory := func(i int) (*wiring, []hTx) {
+	// the universes of a history: the plain ones or the prefix chains (store_c09_w5.go)
+	mkHistory := func(i int) (*wiring, []string, []hTx) {
 		w := wiringByName(prof.wirings[i%len(prof.wirings)])
 		w.derive()
-		g := &histGen{r: r, w: w, p: prof, ids: prof.ids}
-		return w, g.genPopulated()
+		p, ids := c09Universe(r, prof, prof.ids)
+		if p != prof {
+			stats["chain_universe_histories"]++
+		}
+		g := &histGen{r: r, w: w, p: p, ids: ids}
+		return w, ids, g.genPopulated()
 	}
 	// random (state, corruption subset) pairs
 	randomChoice := func(w *wiring, ids []string, pZero int) func(facts []string) []corruption {
@@ -1231,8 +1238,8 @@ func runC09(o *opts) error {
 		}
 	}
 	for i := 0; i < n; i++ {
-		w, txs := mkHistory(i)
-		if err := emit(w, txs, randomChoice(w, prof.ids, 0)); err != nil {
+		w, ids, txs := mkHistory(i)
+		if err := emit(w, txs, randomChoice(w, ids, 0)); err != nil {
 			return err
 		}
 		stats["random_cases"]++
@@ -1245,12 +1252,12 @@ func runC09(o *opts) error {
 	}
 	// bounded-exhaustive: all subsets of <= 4 corruptions out of a pool of candidates, per state
 	for i := 0; i < nStates; i++ {
-		w, txs := mkHistory(i)
+		w, ids, txs := mkHistory(i)
 		facts, err := consistentFacts(w, txs, tmp)
 		if err != nil {
 			return err
 		}
-		cands := candidates(w, facts, r, prof.ids)
+		cands := candidates(w, facts, r, ids)
 		// a pool that covers as many different classes as possible
 		var poolC []corruption
 		seen := map[string]bool{}
